@@ -248,7 +248,7 @@ def oracle_flow(info, ev, impl_lines, domain):
         if viol and viol[-1][0] in ("fifo-once", "wire-undecodable"): break
         # stranded check at event boundaries (fully flushed histories only)
         if all_flushed and domain in ("C03", "C04") and e[0] in ("flush", "time"):
-            if domain == "C04" and has_time_jump: continue
+            expiry_domain = domain == "C04" and has_time_jump          # C03's known finding lives here; judged against the model below
             for n, subs in submitted.items():
                 sent = len(wire.get(n, []))
                 if sent < len(subs):
@@ -261,7 +261,7 @@ def oracle_flow(info, ev, impl_lines, domain):
                             used_noexp = sum(rsize(info, x[0]) for x in noexp.get(n, []))
                             key = "strand.lazy-expiry" if used_noexp + rsize(info, hty) > 48 else "strand.other"
                         else:
-                            key = "resume.stranded"
+                            key = "resume.stranded-with-expiry" if expiry_domain else "resume.stranded"
                         viol.append((key, "held message %s to node %s fits the budget (%d+%d<=48) and no ancestor is stalled, but was not transmitted by event %d" % (hexs(head), n, used, rsize(info, hty), i), i))
                         return viol
     if domain == "C05":
@@ -330,8 +330,14 @@ def run_flow_check(ck, prop_file, domain, make_cases, corr_name, known_classifie
         if domain != "C05":
             vs = [v for v in vs if True]
         for key, reason, at in vs[:1]:
-            orc_fail += 1
             same_as_model = (il == ml)
+            # the known finding strand.lazy-expiry is the stranding that the faithful model of the unchanged code exhibits as well; a
+            # stranding in the expiry domain on a history where implementation and model disagree is something else
+            if key == "strand.lazy-expiry" and not same_as_model: key = "strand.with-expiry-not-in-model"
+            if key == "resume.stranded-with-expiry":
+                if same_as_model: continue                      # C03's finding, not a stall matter
+                key = "resume.stranded-not-in-model"
+            orc_fail += 1
             ck.violation(key, {"property": ck.pid, "events": ev_json(ev), "script": script_of("replay", ev), "impl": il, "model": ml,
                                "reason": reason, "at_event": at, "implementation_equals_faithful_model": same_as_model})
         if il != ml:
